@@ -5,7 +5,7 @@ PROP = dict(
   obligations=['rlist.*', 'tbl.retired.conserve', 'tbl.abandon.commit', 'hpscan.conserve', 'hescan.conserve', 'hpscan.dtor.hands_over_all', 'hpscan.retire.once_then_trigger',
                'ebr.conserve', 'ebr.dtor.hands_over_all', 'ebr.dtor.releases_record', 'ebr.reclaim.retires_once', 'ebr.orphans.slot', 'ebr.retire.slot', 'ebr.free.exact',
                'qsbr.conserve', 'qsbr.dtor.hands_over_all', 'qsbr.dtor.releases_record', 'qsbr.reclaim.retires_once', 'qsbr.retire.current_epoch', 'qsbr.orphans.target_epoch', 'qsbr.free.on_reentry',
-               'lfrc.freelist.conserve', 'lfrc.reclaim.once', 'lfrc.reset.destroy_iff_claimed', 'lfrc.freelist.push_links', 'lfrc.freelist.pop_owns', 'lfrc.decrement.claims_once', 'lfrc.guard.algebra', 'lfrc.new.reinit_count', 'qsbr.guard.region_balance', 'ebr.nesting.balanced', 'stamp.region.balanced',   # region / reference-count balance: an unbalanced thread never reaches a reclamation point again, a stale count keeps the object for ever or frees it twice (seeds C02-lfrc-local-pop-store, C02-qsbr-marked-null-region);   # a reference that a guard operation takes and never gives back keeps a retired object from ever being destroyed (round-4 seed)
+               'lfrc.freelist.conserve', 'lfrc.reclaim.once', 'lfrc.reset.destroy_iff_claimed', 'lfrc.freelist.push_links', 'lfrc.freelist.pop_owns', 'lfrc.decrement.claims_once', 'lfrc.guard.algebra', 'lfrc.new.reinit_count', 'lfrc.header.accessors', 'qsbr.guard.region_balance', 'ebr.nesting.balanced', 'stamp.region.balanced',   # region / reference-count balance: an unbalanced thread never reaches a reclamation point again, a stale count keeps the object for ever or frees it twice (seeds C02-lfrc-local-pop-store, C02-qsbr-marked-null-region);   # a reference that a guard operation takes and never gives back keeps a retired object from ever being destroyed (round-4 seed)
               
                'stamp.conserve', 'stamp.dtor.hands_over_all', 'stamp.global.restart_progress', 'stamp.free.below_tail', 'stampq.global.conserve',
                'hp.reclaim.retires_and_resets'],
